@@ -95,7 +95,8 @@ struct H
     if(2 <= M) add(NEWFILL, 2, 'a');
     add(NEWFILL, 0, 'a');
     add(NEWCAP, 0); add(NEWCAP, 5);
-    for(int r = 0; r < 2; ++r) if(rangeLen[r] <= M) add(ATTACH, r);
+    for(int r = 0; r < 2; ++r) if(rangeLen[r] <= M) add(ATTACH, r, rangeLen[r]);
+    add(ATTACH, 0, 0); add(ATTACH, 0, 1); add(ATTACH, 1, 0);   // a prefix of a range, also the empty one: the byte behind it is not a terminator
     for(int j = 1; j < 3; ++j) add(COPYCTOR, j);
     for(int j = 0; j < 3; ++j) add(ASSIGN, j);
     for(int j = 0; j < 3; ++j) if(n + (int)m[j].size() <= M) { add(APPEND, j); add(PREPEND, j); }
@@ -179,8 +180,8 @@ struct H
     case NEWCAP: { String* n = 0; LIB(n = new String((usize)o.x)); set(0, n, MStr()); break; }
     case ATTACH:
       memcpy(range[o.x], pristine[o.x], o.x == 0 ? 4 : 3);
-      LIB(a.attach(range[o.x], (usize)rangeLen[o.x]));
-      ma = ms(range[o.x], rangeLen[o.x]);
+      LIB(a.attach(range[o.x], (usize)o.y));
+      ma = ms(range[o.x], o.y);
       break;
     case COPYCTOR: { String* n = 0; LIB(n = new String(*s[o.x])); set(0, n, m[o.x]); break; }
     case ASSIGN: { String& b = *s[o.x]; LIB(a = b); ma = m[o.x]; break; }
